@@ -3,6 +3,7 @@ CONSTANTS K = 1 SendPuncture = TRUE PunctureFirst = TRUE FollowAll = FALSE MaxId
           APlaces = {"pub", "nat"} CandPlaces = {"pub", "nat", "withA", "withI"}
           MaxContactsA = 2 MaxContactsB = 2
           MinContacts = 1 MaxRebinds = 1 Clock0 = 65534 Refresh = TRUE Ident16 = TRUE
+          Svcs = {"M"} Phased = FALSE V6N = 0 StyleAware = TRUE SvcWalkable = TRUE
 INVARIANT TypeOK
 INVARIANT Reach
 INVARIANT LanMeet
